@@ -485,6 +485,21 @@ theorem ins_evidence_ratio_source_eq_model (nested live : List (K × K)) (nsOnly
       = insRatio nested live nsOnly := by
   cases nsOnly <;> rfl
 
+/-- `compute_uncertainty(log_evidence)` on the state `update_evidence` leaves: the square root of the model's `insVar`
+(`log_evidence=False`), or `|·/Ẑ|` of it (`True`, the reported log-evidence error) — for ANY functions standing for `np.sqrt` and
+`np.abs` (they are not interpreted), and any number of samples (`n (n − 1)` is computed on counts: 0 for n ≤ 1, as in the model) -/
+theorem ins_uncertainty_source_eq_model (sqrtOf absOf : K → K) (w : List K) (logEvidence : Bool) :
+    Gen.InsState.compute_uncertainty w w.length sqrtOf absOf (sumL w) logEvidence
+      = if logEvidence then absOf (sqrtOf (insVar w) / insZ w) else sqrtOf (insVar w) := by
+  have hc : (((w.length * (w.length - 1) : Nat)) : K) = (w.length : K) * ((w.length : K) - ((1 : Nat) : K)) := by
+    cases h : w.length with
+    | zero => simp
+    | succ n => push_cast; simp
+  have hv : sumL ((w.map (fun x => x - insZ w)).map (fun x => x * x)) / (((w.length * (w.length - 1) : Nat)) : K) = insVar w := by
+    rw [hc, List.map_map]; rfl
+  unfold Gen.InsState.compute_uncertainty
+  simp only [show Gen.InsState.logZ (sumL w) w.length = insZ w from rfl, hv]
+
 example : Gen.InsState.update_evidence [(2 : ℚ), 4] [1 / 2, 1 / 4] (some ([3], [1 / 3])) = ([1, 1, 1], 3, 3) := by
   norm_num [Gen.InsState.update_evidence, sumL]
 
